@@ -66,8 +66,18 @@ def _plan(draw, max_rows):
     else:
         cols.append({"name": "xi", "kind": "i", "vals": [draw(st.integers(-1000, 1000)) for _ in range(n)]})
         cols.append({"name": "xf", "kind": "f", "vals": [draw(st.sampled_from([gen.NAN, -3.0, -0.0, 0.0, 0.5, 1.0, 2.5, 1e6])) for _ in range(n)]})
+    # further value columns whose missing value is not NaN: object booleans with None, strings with "", dates with NaT
+    pat = lambda pool: [pool[(i * 7 + i // 3) % len(pool)] for i in range(n)] if n > 40 else [draw(st.sampled_from(pool)) for _ in range(n)]
+    cols.append({"name": "xo", "kind": "ob", "vals": pat([None, True, False, True])})
+    cols.append({"name": "xs", "kind": "s", "vals": pat(["", "a", "b", "ab"])})
+    cols.append({"name": "xd", "kind": "d", "vals": pat([None, "2020-01-01", "2020-01-02", "1969-12-31"])})
     h = draw(st.sampled_from(HELPERS))
-    hx = {"helper": h, "col": draw(st.sampled_from(["xi", "xf"])), "args": {}}
+    choices = ["xi", "xf"]
+    if h in ("count", "count_unique", "first", "last", "nth", "mode"):
+        choices = ["xi", "xf", "xo", "xs", "xd"]
+    elif h in ("min", "max"):
+        choices = ["xi", "xf", "xs", "xd"]
+    hx = {"helper": h, "col": draw(st.sampled_from(choices)), "args": {}}
     if h not in ("all", "any") and draw(st.booleans()):
         hx["args"]["drop_na"] = draw(st.booleans())
     if h == "nth":
@@ -257,7 +267,7 @@ def _check_once(plan, data, ctx):
         both = ctx.call("aggregate(helper, lambda)", lambda: data.group_by(*by).aggregate(h=short, l=lam))
         data._group_colnames = ()
         a, b = build.cells(both["h"]), build.cells(both["l"])
-        ambiguous = hx["helper"] in ("count_unique", "mode") and hx["args"].get("drop_na") is not True and hx["col"] == "xf"
+        ambiguous = hx["helper"] in ("count_unique", "mode") and hx["args"].get("drop_na") is not True and hx["col"] != "xi"
         if not ambiguous and not all(build.same_cell(x, y, tol=(1e-9, 1e-12)) for x, y in zip(a, b)):
             raise Violation("a shorthand helper differs from a lambda applying that helper to the group's column",
                             helper=hx, shorthand=a, lam=b)
